@@ -190,6 +190,7 @@ def job(i):
 
 # ---------------------------------------------------------------- (5) short contexts with the symbolic matcher
 PREFIXES = ["", ",", " ", ", ", ", at ", " at ", "at "]
+PIN_SHAPES = ["D", "DD", "D-D", "D:D", "D:D-D", "D:D-D:D"]
 TERMS = [".", ",", ";", ")", "]", " (", " [", ""]
 
 
@@ -209,12 +210,19 @@ class HCtx(common.Harness):
     def run(self):
         eng = self.eng
         P = PREFIXES[eng.choose([z3.Int("prefix") == k for k in range(len(PREFIXES))])]
-        nd = 1 + eng.choose([z3.Int("ndigits") == k for k in range(1, 3)])
+        # the written pin cite: one or two digits, or one of the documented range / page:line shapes
+        shape = PIN_SHAPES[eng.choose([z3.Int("shape") == k for k in range(len(PIN_SHAPES))])]
+        nd = len(shape)
         T = TERMS[eng.choose([z3.Int("term") == k for k in range(len(TERMS))])]
         extra = 0 if T == "" else eng.choose([z3.Int("extra") == k for k in range(2)])
-        digs = [z3.Int(f"d{i}") for i in range(nd)]
-        for d in digs:
-            eng.add(d >= 48, d <= 57)
+        digs = []
+        for i, ch in enumerate(shape):
+            if ch == "D":
+                d = z3.Int(f"d{i}")
+                eng.add(d >= 48, d <= 57)
+                digs.append(d)
+            else:
+                digs.append(ord(ch))
         tail = [z3.Int(f"x{i}") for i in range(extra)]
         for x in tail:
             eng.add(x >= 0, x <= 0x10FFFF)
@@ -515,7 +523,7 @@ def check(rep):
     rnd = random.Random(common.seed())
     idx = list(range(len(exts)))
     sample = idx  # every extractor in both tiers: (1) is a statement per reporter string across extractors
-    rep.bounds.append(f"(1)(2): {len(sample)} of {len(exts)} citation extractors (all); volumes [1-9]\\d* and pages \\d+ of any length; neighbours any non-alphanumeric character or the text ends; (5): contexts [,][ ][at ]D{{1,2}}T plus <= 1 arbitrary character; (8): year contexts [, D{{1,2}}| at D] (|[ [court of 2..3 arbitrary characters] YYYY )|] [one arbitrary character]; (9): antecedent contexts [one arbitrary character + blank] Name{{2..4}} [,] blank [volume D{{1,2}} blank]")
+    rep.bounds.append(f"(1)(2): {len(sample)} of {len(exts)} citation extractors (all); volumes [1-9]\\d* and pages \\d+ of any length; neighbours any non-alphanumeric character or the text ends; (5): contexts [,][ ][at ] PIN T plus <= 1 arbitrary character, PIN one of {PIN_SHAPES} with arbitrary digits; (8): year contexts [, D{{1,2}}| at D] (|[ [court of 2..3 arbitrary characters] YYYY )|] [one arbitrary character]; (9): antecedent contexts [one arbitrary character + blank] Name{{2..4}} [,] blank [volume D{{1,2}} blank]")
     rep.outside += ["captures on longer trailing contexts, party names, court lookup, parentheticals, full-span ends", "'exactly one citation per written citation' under overlapping patterns", "reporter strings whose database entry has its own 'regexes' (custom templates with restricted volumes/pages) are not in (1)/(2)"]
     res, err = common.pmap(job, sample, timeout=3000, chunk=8)
     if err:
